@@ -179,6 +179,19 @@ def drift_check(c, nodes_path):
     return o
 
 
+def proj_check(c, nodes_path, tag=""):
+    """The projection of the code graph onto single buffers must be a behaviour of OneBuffer.tla."""
+    T, d, n, sp, blocks = c[:5]
+    name = "CG_proj_%s%s" % (cfgname(c), tag)
+    props = ["Refines0", "RefinesLast"] + (["Refines1"] if T >= 3 else []) + (["Refines2", "Refines3"] if T >= 5 else [])
+    cfg = write_cfg(name, T, n, 16 * blocks, d, sp, "GSpec", "TypeOK", props, False, pad=padof(c))
+    with open(os.path.join(wv.SPEC, cfg + ".cfg"), "a") as f:
+        f.write("CHECK_DEADLOCK FALSE\n")
+    o = wv.tlc("CodeGraph", cfg=cfg, env={"NODES": nodes_path}, workers=1, timeout=2400, xmx=heap_for(nodes_path), c1=False)
+    wv.tlc_must_run(o, name)
+    return o
+
+
 RT_QUICK = [(1, "enc", 40, 20), (2, "enc", 70, 16), (2, "dec", 64, 16), (3, "enc", 104, 8), (3, "dec", 96, 8), (4, "enc", 200, 3)]
 RT_THOROUGH = [(1, "enc", 40, 200), (1, "dec", 48, 200), (2, "enc", 70, 150), (2, "enc", 64, 150), (2, "dec", 64, 150), (2, "dec", 96, 100), (3, "enc", 104, 60), (3, "dec", 96, 60), (4, "enc", 200, 20), (4, "dec", 160, 20)]
 
@@ -195,7 +208,7 @@ def realthread_one(pid, c, attempt=0):
     pdir = os.path.join(wv.RUN, pid, "rt"); os.makedirs(pdir, exist_ok=True)
     path = os.path.join(pdir, "T%d_%s_n%d_a%d.ndjson" % (T, d, n, attempt))
     try:
-        r = wv.run_harness(exe, [T, d, n, x, 300], path, timeout=120, env={"VERIF_SEED": str(wv.seed() + 1000 * attempt)})
+        r = wv.run_harness(exe, [T, d, n, x, 300], path, timeout=45, env={"VERIF_SEED": str(wv.seed() + 1000 * attempt)})
     except wv.Infra:
         return {"cfg": c, "kind": "hang", "path": path}
     evs = wv.read_ndjson(path)
@@ -224,8 +237,12 @@ def realthread(pid, res, tier, ex):
     cfgs = RT_QUICK if tier == "quick" else RT_THOROUGH
     outs = list(ex.map(lambda c: realthread_one(pid, c), cfgs))
     n_ok = n_ev = n_st = 0
+    confirmed_hang = False
     for o in outs:
         c = o["cfg"]
+        if o["kind"] == "hang" and confirmed_hang:
+            res.note("real-thread run %s hung as well (not re-run: a hang was already confirmed twice in this run)" % (c,))
+            continue
         if o["kind"] != "ok":
             o2 = realthread_one(pid, c, attempt=1)        # report only what an immediate re-run reproduces
             if o2["kind"] == "ok":
@@ -236,6 +253,7 @@ def realthread(pid, res, tier, ex):
         if o["kind"] == "ok":
             n_ok += o["executions"]; n_ev += o["events"]; n_st += o["states"]
         elif o["kind"] == "hang":
+            confirmed_hang = True
             if pid == "C04":
                 res.violation("the pipeline did not terminate with the production primitives (T=%d %s n=%d), twice in a row" % c[:3], {"T": c[0], "dir": c[1], "n": c[2], "trace": o["path"]})
             else:
@@ -278,7 +296,7 @@ def design(pid, res, tier):
                        "  Gate = TRUE  NotifyReady = TRUE  NotifyUpdate = TRUE  WaitLoop = TRUE  ReadyTest = TRUE  Spurious = %s  Unbounded = TRUE\n"
                        "  Loads <- MCLoads  DecPad <- MCDecPad\nSPECIFICATION %s\nINVARIANTS TypeOK LockDiscipline %s\n%s" %
                        (T, "TRUE" if sp else "FALSE", "UFairSpec" if live else "Spec", "Quiescent" if pid == "C04" else "Exclusive NoUnderflow",
-                        "PROPERTY Termination\n" if live else "CHECK_DEADLOCK FALSE\n"))
+                        "PROPERTY Termination\n" if live else "CHECK_DEADLOCK FALSE\nPROPERTIES Refines0 RefinesLast%s\n" % (" Refines1" if T >= 3 else "")))
                 with open(os.path.join(g, nm + ".cfg"), "w") as f:
                     f.write(txt)
                 runs.append((os.path.join("gen", nm), True))
@@ -290,7 +308,7 @@ def design(pid, res, tier):
 
     def one(r):
         big = "_T3_" in r[0] and "PLUB" in r[0]
-        return wv.tlc("MC_Pipeline", cfg=r[0], workers=10 if big else 2, timeout=7200 if big else 1800, xmx="12g" if big else "1g")
+        return wv.tlc("MC_PipelineProj" if "PLUB_C14" in r[0] else "MC_Pipeline", cfg=r[0], workers=10 if big else 2, timeout=7200 if big else 1800, xmx="12g" if big else "1g")
     with cf.ThreadPoolExecutor(7) as ex:
         outs = list(ex.map(one, runs))
     for (cfg, must), o in zip(runs, outs):
@@ -301,6 +319,19 @@ def design(pid, res, tier):
             raise wv.Infra("negative control %s did not fail" % cfg)
         if must:
             res.add("states", o["distinct"]); res.add("transitions", o["states"])
+    if pid == "C14":
+        # every number of buffers: the one-buffer protocol satisfies the per-buffer guarantees (complete), its negative
+        # controls fail, and the unbounded runs above carried the refinement mapping Pipeline -> OneBuffer (Refines*)
+        for cfg, must in (("MC_OneBuffer_TRUE", True), ("MC_OneBuffer_FALSE", True), ("MC_OneBuffer_neg_gate", False), ("MC_OneBuffer_neg_while", False), ("MC_OneBuffer_neg_readytest", False)):
+            o = wv.tlc("OneBuffer", cfg=cfg, workers=2, timeout=600)
+            wv.tlc_must_run(o, cfg)
+            if must and not o["ok"]:
+                raise wv.Infra("OneBuffer.tla violates its own properties in %s:\n%s" % (cfg, o["out"][-2500:]))
+            if not must and not o["violated"]:
+                raise wv.Infra("negative control %s did not fail" % cfg)
+            if must:
+                res.add("states", o["distinct"]); res.add("transitions", o["states"])
+        res.cov["every_T_argument"] = "OneBuffer.tla (one control block, its worker, the I/O thread as a visitor; 1 079 states, complete) satisfies Exclusive / NoUnderflow / LockDiscipline / Retired with and without spurious wake-ups; MC_PipelineProj maps Pipeline.tla onto it per buffer, and TLC checks that refinement on the unbounded-input model for T in {1,2} (thorough: 3) and on every explored code graph (incl. the sampled T = 3,4,8,16 graphs)"
     if pid == "C04":
         wv.proofs(res, "ChunkingProofs")       # no load sequence ends in a final buffer without a block (any length, any chunk size)
     res.cov["design_configurations"] = len([r for r in runs if r[1]])
@@ -341,6 +372,15 @@ def run(pid, tier, replay):
             for c, (np_, summ) in zip(cfgs, graphs):
                 if summ.get("e") != "stuck":
                     drifts.append((c, ex.submit(drift_check, c, np_)))
+        projs = []
+        if pid == "C14":
+            for c, (np_, summ) in zip(cfgs, graphs):
+                if summ.get("e") != "stuck":
+                    projs.append((cfgname(c), ex.submit(proj_check, c, np_)))
+            for c, (np_, summ) in zip(pcts, pgraphs):
+                if summ.get("e") != "stuck":
+                    cc = (c[0], c[1], c[2], 0, 2)
+                    projs.append((cfgname(cc) + " (sampled)", ex.submit(proj_check, cc, np_, "_pct")))
         realthread(pid, res, tier, ex)
         fdesign.result()
         code_states = code_edges = runs = 0
@@ -369,6 +409,12 @@ def run(pid, tier, replay):
             if not o["ok"]:
                 res.note("spec-drift: a step of the real code in %s is not a step of Pipeline.tla (implementation differs from the implementation-level model; property-level checks still decide)" % cfgname(c))
         res.cov["refinement_StepOK_checked_on"] = [cfgname(c) for c, _ in drifts]
+        for nm, fut in projs:
+            o = fut.result()
+            if not o["ok"]:
+                res.note("spec-drift: the projection of the real code's behaviour onto one buffer in %s is not a behaviour of OneBuffer.tla (the every-T argument does not transfer to this code as it stands; the property-level checks on the explored graphs still decide)" % nm)
+        if projs:
+            res.cov["per_buffer_projection_onto_OneBuffer_checked_on"] = [nm for nm, _ in projs]
     if pid == "C03":
         # the stream objects are handed to the workers by runcrypt, outside the scheduler harness: multi-chunk
         # encryptions with real threads, each repeated, must be byte-identical to each other and to FileFormat
